@@ -22,6 +22,8 @@ import (
 	"verifharness/vh"
 )
 
+var allZones = []string{"UTC", "America/New_York", "Asia/Kolkata", "Asia/Tokyo", "Europe/London", "Australia/Lord_Howe", "America/St_Johns", ""}
+
 type member struct {
 	Name     string `json:"name"`
 	Ignore   bool   `json:"ignore_error"`
@@ -35,6 +37,12 @@ type schemaCase struct {
 	Consts  []string `json:"const_args"` // the arguments after the record's value
 	Members []member `json:"members"`
 	Values  []string `json:"values"` // one record per value
+	// several transforms from ONE Schema: argument i comes from {"external": "arg<i>"} where
+	// External[i], and Runs[k] are the arguments of the k-th transform (Consts is Runs[0]);
+	// Alive: all transforms are created before any is read, then read round-robin
+	External []bool     `json:"external_args,omitempty"`
+	Runs     [][]string `json:"runs,omitempty"`
+	Alive    bool       `json:"alive_at_once,omitempty"`
 }
 
 func callDirect(fn string, v string, c []string) (string, error) {
@@ -54,8 +62,12 @@ func jsonStr(s string) string { b, _ := json.Marshal(s); return string(b) }
 
 func (c schemaCase) funcDecl(ignore bool) string {
 	args := []string{`{ "xpath": "v" }`}
-	for _, a := range c.Consts {
-		args = append(args, `{ "const": `+jsonStr(a)+`, "keep_empty_or_null": true }`)
+	for i, a := range c.Consts {
+		if i < len(c.External) && c.External[i] {
+			args = append(args, fmt.Sprintf(`{ "external": "arg%d", "keep_empty_or_null": true }`, i))
+		} else {
+			args = append(args, `{ "const": `+jsonStr(a)+`, "keep_empty_or_null": true }`)
+		}
 	}
 	ig := ""
 	if ignore {
@@ -137,6 +149,33 @@ type recObs struct {
 	Members map[string]string `json:"members,omitempty"` // members present with a non-empty string
 }
 
+// readAll reads t to the end; nil, reason if it does not end properly.
+func readOne(t omniparser.Transform) (ro recObs, eof bool, fatal string) {
+	b, err := t.Read()
+	if err == io.EOF {
+		return ro, true, ""
+	}
+	if err != nil {
+		if !errs.IsErrTransformFailed(err) {
+			return ro, false, "fatal: " + err.Error()
+		}
+		return recObs{Failed: true}, false, ""
+	}
+	var m map[string]interface{}
+	if json.Unmarshal(b, &m) != nil {
+		return ro, false, "output is not a JSON object: " + string(b)
+	}
+	ro = recObs{Members: map[string]string{}}
+	for k, v := range m {
+		if s, ok := v.(string); ok && s != "" {
+			ro.Members[k] = s
+		} else if v != nil && !ok {
+			ro.Members[k] = fmt.Sprint(v)
+		}
+	}
+	return ro, false, ""
+}
+
 func (e *env) runSchema(c schemaCase) {
 	c.Fn = "schema"
 	vh.Current(e.o, c)
@@ -144,7 +183,16 @@ func (e *env) runSchema(c schemaCase) {
 	e.sum.Hist("schema:format=" + c.Format)
 	e.sum.Hist("schema:func=" + c.Func)
 	fail := func(what string, detail interface{}) { e.sum.Fail(what, c, detail) }
-	var got []recObs
+	runs := c.Runs
+	if len(runs) == 0 {
+		runs = [][]string{c.Consts}
+	} else {
+		e.sum.Hist(fmt.Sprintf("schema:one-schema-%d-transforms-external-args", len(runs)))
+		if c.Alive {
+			e.sum.Hist("schema:transforms-alive-at-once")
+		}
+	}
+	got := make([][]recObs, len(runs))
 	var fatal string
 	func() {
 		defer func() {
@@ -157,40 +205,72 @@ func (e *env) runSchema(c schemaCase) {
 			fatal = "NewSchema: " + err.Error()
 			return
 		}
-		t, err := s.NewTransform("c19-input", strings.NewReader(c.input()), &transformctx.Ctx{})
-		if err != nil {
-			fatal = "NewTransform: " + err.Error()
-			return
-		}
-		for i := 0; i < len(c.Values)+5; i++ {
-			b, err := t.Read()
-			if err == io.EOF {
-				return
+		mk := func(k int) omniparser.Transform {
+			ctx := &transformctx.Ctx{ExternalProperties: map[string]string{}}
+			for i, v := range runs[k] {
+				ctx.ExternalProperties[fmt.Sprintf("arg%d", i)] = v
 			}
+			t, err := s.NewTransform("c19-input", strings.NewReader(c.input()), ctx)
 			if err != nil {
-				if !errs.IsErrTransformFailed(err) {
-					fatal = "fatal: " + err.Error()
+				fatal = "NewTransform: " + err.Error()
+				return nil
+			}
+			return t
+		}
+		if c.Alive {
+			ts := make([]omniparser.Transform, len(runs))
+			for k := range runs {
+				if ts[k] = mk(k); ts[k] == nil {
 					return
 				}
-				got = append(got, recObs{Failed: true})
-				continue
 			}
-			var m map[string]interface{}
-			if json.Unmarshal(b, &m) != nil {
-				fatal = "output is not a JSON object: " + string(b)
-				return
+			done := make([]bool, len(runs))
+			for step := 0; step < (len(c.Values)+5)*len(runs); step++ {
+				k := step % len(runs)
+				if done[k] {
+					continue
+				}
+				ro, eof, f := readOne(ts[k])
+				if f != "" {
+					fatal = f
+					return
+				}
+				if eof {
+					done[k] = true
+					continue
+				}
+				got[k] = append(got[k], ro)
 			}
-			ro := recObs{Members: map[string]string{}}
-			for k, v := range m {
-				if s, ok := v.(string); ok && s != "" {
-					ro.Members[k] = s
-				} else if v != nil && !ok {
-					ro.Members[k] = fmt.Sprint(v)
+			for _, d := range done {
+				if !d {
+					fatal = "Read did not reach EOF"
 				}
 			}
-			got = append(got, ro)
+			return
 		}
-		fatal = "Read did not reach EOF"
+		for k := range runs {
+			t := mk(k)
+			if t == nil {
+				return
+			}
+			ended := false
+			for i := 0; i < len(c.Values)+5 && !ended; i++ {
+				ro, eof, f := readOne(t)
+				if f != "" {
+					fatal = f
+					return
+				}
+				if eof {
+					ended = true
+				} else {
+					got[k] = append(got[k], ro)
+				}
+			}
+			if !ended {
+				fatal = "Read did not reach EOF"
+				return
+			}
+		}
 	}()
 	if e.verbose {
 		b, _ := json.Marshal(c)
@@ -200,69 +280,72 @@ func (e *env) runSchema(c schemaCase) {
 		fail("schema-level run of a date-time function did not complete", fatal)
 		return
 	}
-	if len(got) != len(c.Values) {
-		fail("number of Read results differs from the number of records", map[string]int{"records": len(c.Values), "results": len(got)})
-		return
-	}
 	names := []string{}
 	for _, m := range c.Members {
 		names = append(names, m.Name)
 	}
 	sort.Strings(names)
 	var coqRecs []string
-	nontrivial := false
-	for i, v := range c.Values {
-		out, err := callDirect(c.Func, v, c.Consts)
-		wantFail := false
-		want := map[string]string{}
-		kind := "RVal tt"
-		switch {
-		case err != nil:
-			kind = "RError"
-			e.sum.Hist("schema:value=unparsable")
-		case out == "":
-			kind = "REmpty"
-			e.sum.Hist("schema:value=empty")
-		default:
-			e.sum.Hist("schema:value=valid")
+	nontrivial := len(runs) > 1
+	for k, consts := range runs {
+		if len(got[k]) != len(c.Values) {
+			fail("number of Read results differs from the number of records", map[string]int{"transform": k, "records": len(c.Values), "results": len(got[k])})
+			return
 		}
-		var ms []string
-		for _, m := range c.Members {
-			ms = append(ms, fmt.Sprintf("(%s, %s)", vh.CoqBool(m.Ignore), kind))
-			if err != nil && !m.Ignore {
-				wantFail = true
-				nontrivial = true
+		for i, v := range c.Values {
+			out, err := callDirect(c.Func, v, consts)
+			wantFail := false
+			want := map[string]string{}
+			kind := "RVal tt"
+			switch {
+			case err != nil:
+				kind = "RError"
+				e.sum.Hist("schema:value=unparsable")
+			case out == "":
+				kind = "REmpty"
+				e.sum.Hist("schema:value=empty")
+			default:
+				e.sum.Hist("schema:value=valid")
 			}
-			if err == nil && out != "" {
-				want[m.Name] = out
-			}
-		}
-		// model case: members (ignore_error, kind of the function's result) -> observed record
-		obsCoq := "None"
-		if !got[i].Failed {
-			var flags []string
+			var ms []string
 			for _, m := range c.Members {
-				_, present := got[i].Members[m.Name]
-				flags = append(flags, vh.CoqBool(present))
+				ms = append(ms, fmt.Sprintf("(%s, %s)", vh.CoqBool(m.Ignore), kind))
+				if err != nil && !m.Ignore {
+					wantFail = true
+					nontrivial = true
+				}
+				if err == nil && out != "" {
+					want[m.Name] = out
+				}
 			}
-			obsCoq = "(Some " + vh.CoqList(flags) + ")"
-		}
-		coqRecs = append(coqRecs, fmt.Sprintf("(%s, %s)", vh.CoqList(ms), obsCoq))
-		switch {
-		case wantFail && !got[i].Failed:
-			fail("a strict member (no ignore_error) was given unparsable input but the record did not fail: unparsable input must yield an error",
-				map[string]interface{}{"record": i, "value": v, "function_error": err.Error(), "observed": got[i]})
-			return
-		case !wantFail && got[i].Failed:
-			fail("the record failed although no strict member's function call fails",
-				map[string]interface{}{"record": i, "value": v, "direct_call": out})
-			return
-		case !wantFail:
-			for _, n := range names {
-				if got[i].Members[n] != want[n] {
-					fail("a member's value differs from what the function returns when called on its own",
-						map[string]interface{}{"record": i, "value": v, "member": n, "observed": got[i].Members[n], "direct_call": want[n]})
-					return
+			// model case: members (ignore_error, kind of the function's result) -> observed record
+			obsCoq := "None"
+			if !got[k][i].Failed {
+				var flags []string
+				for _, m := range c.Members {
+					_, present := got[k][i].Members[m.Name]
+					flags = append(flags, vh.CoqBool(present))
+				}
+				obsCoq = "(Some " + vh.CoqList(flags) + ")"
+			}
+			coqRecs = append(coqRecs, fmt.Sprintf("(%s, %s)", vh.CoqList(ms), obsCoq))
+			where := map[string]interface{}{"transform": k, "arguments": consts, "record": i, "value": v}
+			switch {
+			case wantFail && !got[k][i].Failed:
+				where["function_error"], where["observed"] = err.Error(), got[k][i]
+				fail("a strict member (no ignore_error) was given unparsable input but the record did not fail: unparsable input must yield an error", where)
+				return
+			case !wantFail && got[k][i].Failed:
+				where["direct_call"] = out
+				fail("the record failed although no strict member's function call fails", where)
+				return
+			case !wantFail:
+				for _, n := range names {
+					if got[k][i].Members[n] != want[n] {
+						where["member"], where["observed"], where["direct_call"] = n, got[k][i].Members[n], want[n]
+						fail("a member's value differs from what the function returns when called on its own with this transform's arguments", where)
+						return
+					}
 				}
 			}
 		}
@@ -329,4 +412,126 @@ func (e *env) schemaStream(r *vh.Rng, n int) {
 		}
 		e.runSchema(c)
 	}
+	// ONE Schema, several transforms whose zone / unit / layout arguments come from their own
+	// transformctx.Ctx.ExternalProperties
+	for i := 0; i < n/4; i++ {
+		c := schemaCase{Format: []string{"xml", "json", "csv"}[i%3], Members: twins[[]int{0, 1, 2, 3, 4}[(i/3)%5]], Alive: i%4 == 3}
+		nruns := r.Between(2, 4)
+		c.Values = []string{"2020/09/22 12:34:56", "2021-03-14 01:59:59", "1999-12-31T23:59:59.999", ""}
+		mkRun := func() []string { return nil }
+		switch (i / 3) % 3 {
+		case 0:
+			c.Func, c.External = "dateTimeToRFC3339", []bool{r.Chance(0.8), r.Chance(0.8)}
+			mkRun = func() []string { return []string{allZones[r.Pick(len(allZones))], allZones[r.Pick(len(allZones))]} }
+		case 1:
+			c.Func, c.External = "dateTimeToEpoch", []bool{true, true}
+			mkRun = func() []string {
+				return []string{allZones[r.Pick(len(allZones))], []string{"SECOND", "MILLISECOND"}[r.Pick(2)]}
+			}
+		default:
+			c.Func, c.External = "epochToDateTimeRFC3339", []bool{true, true}
+			c.Values = []string{"1600778096", "-1500", "253402300799", "1600778096123", ""}
+			mkRun = func() []string {
+				return []string{[]string{"SECOND", "MILLISECOND"}[r.Pick(2)], allZones[r.Pick(len(allZones)-1)]}
+			}
+		}
+		if !c.External[0] && !c.External[1] {
+			c.External[0] = true
+		}
+		first := mkRun()
+		for k := 0; k < nruns; k++ {
+			run := mkRun()
+			for j := range run {
+				if !c.External[j] {
+					run[j] = first[j] // a const argument is the same for every transform
+				}
+			}
+			c.Runs = append(c.Runs, run)
+		}
+		c.Runs[0], c.Consts = first, first
+		c.Values = append(c.Values, "not a date")
+		e.runSchema(c)
+	}
+	// many distinct declarations on one node: each member must return its own conversion
+	for i := 0; i < 3; i++ {
+		c := schemaCase{Format: []string{"xml", "json", "csv"}[i%3], Func: "dateTimeToRFC3339", Consts: []string{"", ""},
+			Values: []string{"2020/09/22 12:34:56", "2021-03-14 01:59:59"}}
+		// the members differ in their zone arguments: emitted as separate single-function cases over
+		// the same input would not share a node, so they are put into ONE object via per-member consts
+		e.runManyMembers(c, allZones, r)
+	}
+}
+
+// runManyMembers: one object with a member for every (fromTZ, toTZ) pair of zones; every member
+// must carry the result of its own arguments.
+func (e *env) runManyMembers(c schemaCase, zones []string, r *vh.Rng) {
+	c.Fn = "schema-many"
+	vh.Current(e.o, c)
+	e.sum.Hist("fn:schema")
+	e.sum.Hist("schema:many-distinct-members-on-one-node")
+	type pair struct{ name, from, to string }
+	var pairs []pair
+	var ms []string
+	for i, f := range zones {
+		for j, t := range zones {
+			p := pair{fmt.Sprintf("m_%02d_%02d", i, j), f, t}
+			pairs = append(pairs, p)
+			cc := c
+			cc.Consts = []string{f, t}
+			ms = append(ms, jsonStr(p.name)+": "+cc.funcDecl(false))
+		}
+	}
+	cc := c
+	cc.Members = nil
+	schema := cc.schema()
+	schema = strings.Replace(schema, `"object": {  }`, `"object": { `+strings.Join(ms, ", ")+` }`, 1)
+	var fatal string
+	var got []recObs
+	func() {
+		defer func() {
+			if rr := recover(); rr != nil {
+				fatal = fmt.Sprint("panic: ", rr)
+			}
+		}()
+		s, err := omniparser.NewSchema("c19-many", strings.NewReader(schema))
+		if err != nil {
+			fatal = "NewSchema: " + err.Error()
+			return
+		}
+		t, err := s.NewTransform("in", strings.NewReader(c.input()), &transformctx.Ctx{})
+		if err != nil {
+			fatal = "NewTransform: " + err.Error()
+			return
+		}
+		for i := 0; i < len(c.Values)+3; i++ {
+			ro, eof, f := readOne(t)
+			if f != "" {
+				fatal = f
+				return
+			}
+			if eof {
+				return
+			}
+			got = append(got, ro)
+		}
+	}()
+	if fatal != "" || len(got) != len(c.Values) {
+		e.sum.Fail("schema-level run of a date-time function did not complete", c, fmt.Sprint(fatal, " results=", len(got)))
+		return
+	}
+	for i, v := range c.Values {
+		for _, p := range pairs {
+			want, err := fnToRFC3339(nil, v, p.from, p.to)
+			if err != nil {
+				continue
+			}
+			if got[i].Failed || got[i].Members[p.name] != want {
+				e.sum.Fail("a member's value differs from what the function returns when called on its own with the member's arguments", c,
+					map[string]interface{}{"record": i, "value": v, "member": p.name, "from_tz": p.from, "to_tz": p.to, "observed": got[i].Members[p.name], "direct_call": want})
+				return
+			}
+		}
+	}
+	canon, _ := json.Marshal(c)
+	e.sum.Count(string(canon), true)
 }
